@@ -23,6 +23,56 @@ IDENT = 'fpy2/utils/identifier.py'
 GENSYM = 'fpy2/utils/gensym.py'
 
 
+def identifier_spelling_rule(ctx: Ctx):
+    """Two names the programmer spells differently are two identifiers.  `NamedId` keeps a name as (base, count), compares
+    and hashes those, and prints `base + str(count)`; so the split of a spelling into base and count must be undone by
+    that print.  The pattern `_split_id` matches with is read from the source as a regular expression (a table, like
+    the literal patterns of C06) and applied to every name made of a short stem and a digit run of up to four digits
+    over {0, 1, 9}, leading zeros included: the parts it yields must spell the name again.  (x01 used to split into
+    (x, 1), which is x1: a conditionally bound local x01 and a captured x1 were one variable to the syntax check.)"""
+    import re
+    from itertools import product
+    fn = ctx.fn(IDENT, '_split_id')
+    pats = [k.args[0].value for k in ast.walk(fn) if isinstance(k, ast.Call) and call_name(k) in ('re.match', 're.fullmatch') and k.args
+            and isinstance(k.args[0], ast.Constant) and isinstance(k.args[0].value, str)]
+    rets = [norm(r.value) for r in walk_no_nested(fn) if isinstance(r, ast.Return)]
+    shape = len(pats) == 1 and sorted(rets) == sorted(['(name, None)', '(base, int(count))']) and 'base, count = m.groups()' in norm(fn, 2000)
+    if not shape:
+        raise ShapeError(f'_split_id: pattern / returns not read ({pats}, {rets})')
+    rx = re.compile(pats[0])
+    anchored = any(call_name(k) == 're.fullmatch' for k in ast.walk(fn) if isinstance(k, ast.Call)) or pats[0].endswith('$')
+    st = ctx.fn(IDENT, 'NamedId.__str__')
+    t = norm(st, 2000)
+    printed = "return f'{self.base}{self.count}'" in t and 'if self.count is None: return self.base' in t.replace('\n', ' ')
+    ctx.check(printed, IDENT, st, 'NamedId.__str__', 'a name prints as its base followed by its count', 'changed')
+    n = 0
+    bad = None
+    for stem in ('x', 'x_', 'ab', ''):
+        for k in range(0, 5):
+            for digits in product('019', repeat=k):
+                s = stem + ''.join(digits)
+                if not s:
+                    continue
+                m = rx.match(s)
+                base, count = (s, None) if not m else (m.groups()[0], int(m.groups()[1]))
+                n += 1
+                again = base if count is None else f'{base}{count}'
+                if again != s and bad is None:
+                    bad = f'`{s}` splits into ({base!r}, {count}), which is the name `{again}`'
+    ctx.check(bad is None and anchored, IDENT, fn, '_split_id', f'the split of a spelling into base and count is undone by printing it ({n} spellings)',
+              (bad or 'pattern not anchored at the end') + ': two different names of the program are one identifier')
+    init = ctx.fn(IDENT, 'NamedId.__init__')
+    # the arm taken when a count is given explicitly consults the split and can refuse
+    guards = []
+    for s in walk_no_nested(init):
+        if isinstance(s, ast.If) and norm(s.test) in ('count is None', 'count is not None'):
+            arm = s.orelse if norm(s.test) == 'count is None' else s.body
+            sub = ast.Module(body=arm, type_ignores=[])
+            if any(isinstance(k, ast.Call) and call_name(k) == '_split_id' for k in ast.walk(sub)) and any(isinstance(x, ast.Raise) for x in ast.walk(sub)):
+                guards.append(s)
+    ctx.check(len(guards) >= 1, IDENT, init, 'NamedId.__init__', 'an explicit (base, count) is validated against the split and refused otherwise', 'no validation of an explicit base against _split_id')
+
+
 def _self_fields(node: ast.AST) -> set[str]:
     return {a.attr for a in ast.walk(node) if isinstance(a, ast.Attribute) and isinstance(a.value, ast.Name) and a.value.id == 'self'}
 
